@@ -625,7 +625,7 @@ def special_quotes(ctx, props):
             trade(c, -led.pos[c])
             judge("close")
         for i in range(rng.randint(6, 25)):
-            op = rng.choice(["quote", "quote", "val", "mark", "weights", "discontinue", "zero-dip", "trade"])
+            op = rng.choice(["quote", "quote", "val", "mark", "weights", "discontinue", "zero-dip", "trade", "gap"])
             if op == "quote":
                 c = rng.choice(live)
                 quote(c)
@@ -646,6 +646,24 @@ def special_quotes(ctx, props):
                 live.remove(c)
                 dead.add(c)
                 ctx.cat("flat-margined-contract-discontinued")
+            elif op == "gap":
+                # a gap in the feed of a HELD margined contract (NaN quote): valuations and markings attempted during
+                # the gap fail loudly (C13) - the caller catches them - and once valid quotes are back everything is
+                # as if the gap had never been looked at
+                cand = [c for c in live if gen.is_margined(c) and led.pos.get(c, 0.0) != 0.0]
+                if not cand:
+                    continue
+                c = rng.choice(cand)
+                nan = float("nan")
+                ex.process_EventNBBO(EventNBBO(t, c, nan, nan))
+                for attempt in rng.sample(["nlv", "mark-all", "weights", "context", "mark-one"], rng.randint(1, 3)):
+                    try:
+                        {"nlv": b.net_liquidation_value, "mark-all": b.marking_to_market, "weights": b.holdings_weights,
+                         "context": b.context, "mark-one": lambda: b.marking_to_market(c)}[attempt]()
+                    except Exception:
+                        pass
+                quote(c)
+                ctx.cat("valuation-attempted-during-a-feed-gap")
             elif op == "zero-dip":
                 cand = [c for c in live if gen.is_margined(c) and led.pos.get(c, 0.0) != 0.0]
                 if not cand or led.nlv() <= 0:
